@@ -87,21 +87,47 @@ def main(argv=None):
         o = dict(opts)
         if c.get('shard_depth'): o['split_depth'] = c['shard_depth']
         tasks.append((hname, c, o))
-    tasks.sort(key=lambda t: -t[1].get('weight', 1))
+    tasks.sort(key=lambda t: (t[1].get('weight', 1) if a.tier == 'thorough' else -t[1].get('weight', 1)))
     results = []
     def show(r):
         if a.v: print('[case] %-50s %-12s paths=%s pruned=%s red=%s obl=%s sat=%s %.1fs %s' % (r['case']['name'], r['status'], r['stats'].get('paths'), r['stats'].get('pruned'), r['stats'].get('redundant'),
               r['stats'].get('obligations'), r['stats'].get('sat'), r['wall_s'], (r.get('error') or '')[:300]), flush=True)
+    # time cap for the whole run (thorough tier): work not finished by then is listed as not run, never as passed
+    cap = float(os.environ.get('VERIF_TIME_CAP', '1500' if a.tier == 'thorough' else '0')) or None
+    skipped = []
     wave2 = []
-    for r in sym_pool.imap_unordered(_sym_worker, tasks, chunksize=1):
+    capped = False
+    it = sym_pool.imap_unordered(_sym_worker, tasks, chunksize=1)
+    ndone = 0
+    while ndone < len(tasks):
+        try:
+            r = it.next(timeout=None if cap is None else max(1.0, cap - (time.time() - t0)))
+        except mp.TimeoutError:
+            capped = True; break
+        ndone += 1
         results.append(r); show(r)
         for k, pre in enumerate(r.get('frontier') or []):
             o = dict(opts); o['prefix'] = pre
             wave2.append((hname, r['case'], o))
-    for r in sym_pool.imap_unordered(_sym_worker, wave2, chunksize=1):
-        r['shard'] = True
-        results.append(r); show(r)
-    sym_pool.close(); sym_pool.join()
+    if capped:
+        donen = {r['case']['name'] for r in results}
+        skipped += [t[1]['name'] for t in tasks if t[1]['name'] not in donen]
+        if wave2: skipped.append('%d shards of split cases' % len(wave2))
+    elif wave2:
+        it = sym_pool.imap_unordered(_sym_worker, wave2, chunksize=1)
+        n2 = 0
+        while n2 < len(wave2):
+            try:
+                r = it.next(timeout=None if cap is None else max(1.0, cap - (time.time() - t0)))
+            except mp.TimeoutError:
+                capped = True; break
+            n2 += 1
+            r['shard'] = True
+            results.append(r); show(r)
+        if capped: skipped.append('%d of %d shards of split cases' % (len(wave2) - n2, len(wave2)))
+    if capped: sym_pool.terminate()
+    else: sym_pool.close()
+    sym_pool.join()
 
     # ---------------- replay counterexamples on the real code
     cex = [c for r in results for c in r['cex']]
@@ -180,6 +206,8 @@ def main(argv=None):
     for g in getattr(H, 'GUARDS', []):
         if g.get('tier') and g['tier'] != a.tier: continue
         if notes.get(g['note'], 0) < g.get('min', 1) and not a.only:
+            if capped:
+                print('NOTE: progress guard "%s" not met by the cases that ran before the time cap' % g['note']); continue
             problems.append('vacuity guard: no explored path had "%s" (%s)' % (g['note'], g.get('why', '')))
 
     wall = time.time() - t0
@@ -216,11 +244,13 @@ def main(argv=None):
                                 bounds=getattr(H, 'BOUNDS', {}).get(a.tier, getattr(H, 'BOUNDS', {})), path_notes=notes, exceptions_seen=exceptions,
                                 known_findings_hit=[dict(id=k, n=v['n'], what=v['finding']['what']) for k, v in known_hits.items()],
                                 solver='z3 %s (python API, incremental)' % z3ver(), exhaustive=False,
-                                inconclusive=problems[:20], cases_not_encoded=not_encoded[:200], n_cases_not_encoded=len(not_encoded)),
+                                inconclusive=problems[:20], cases_not_encoded=not_encoded[:200], n_cases_not_encoded=len(not_encoded),
+                                time_cap_s=cap, not_run_because_of_time_cap=skipped[:300]),
                   assumptions=getattr(H, 'ASSUMPTIONS', []) + COMMON_ASSUMPTIONS,
                   wall_s=round(wall, 2), violations=len(seenv))
         os.makedirs(os.path.join(VERIF, 'evidence'), exist_ok=True)
         json.dump(ev, open(os.path.join(VERIF, 'evidence', prop + '.json'), 'w'), indent=1)
+    if skipped: print('NOTE: time cap of %ss reached; not run (outside the claim of this run): %s' % (cap, '; '.join(skipped)[:600]))
     print('%s tier=%s cases=%d paths=%d pruned=%d obligations=%d discharged=%d sat=%d validated_witnesses=%d/%d solver_s=%.1f wall=%.1fs exit=%d' % (
         prop, a.tier, len(cases), agg['paths'], agg['pruned'], agg['obligations'], agg['discharged'], agg['sat'], validated, len(wits), agg['solver_s'], wall, exit_code))
     return exit_code
